@@ -81,7 +81,7 @@ Fixpoint run_until' (fuel : nat) (q : N) (r : rt) (acc : list str) (last : optio
 Definition run_until (fuel : nat) (q : N) (r : rt) (acc : list str) : res (rt * list str) :=
   do x <- run_until' fuel q r acc None; Ok (fst x).
 
-Definition call_cap (q : N) : nat := if q <=? 64 then 3000%nat else 40%nat.
+Definition call_cap (q : N) : nat := if q <=? 64 then 3000%nat else 100%nat.
 
 Definition arg_of (call : str) : str := match call with _ :: _ :: r => r | _ => [] end.
 Definition num_of (call : str) : N := match call with _ :: r => match parse_udec r with Some n => n | None => 0 end | [] => 0 end.
